@@ -164,6 +164,25 @@ Theorem C08_conn_reader_pong_by_magic_only_refuted :
   exists payload, length payload = 4%nat /\ conn_reader_step_gen false payload = Panic PIndex.
 Proof. exact conn_reader_pong_by_magic_only_refuted. Qed.
 
+(** tlb/dns.go, the capability list of dns_smc_address and the protocol list of
+    dns_adnl_address: for every head decoder that consumes at least one bit when it
+    succeeds, and every content of the cell, the loop returns (a value or an error)
+    within one iteration per bit - and the design that skips an undecodable head does not. *)
+Theorem C08_dns_list_total :
+  forall item, (forall s r, item s = Some r -> (length r < length s)%nat) ->
+  forall s : list bool,
+    (dns_list item false (S (length s)) s <> Err EFuel) /\
+    (forall p, dns_list item false (S (length s)) s <> Panic p).
+Proof.
+  intros item Hp s. destruct (dns_list_total item Hp s) as [Hf Hn]. split; [exact Hf|].
+  intros p E. rewrite E in Hn. exact Hn.
+Qed.
+
+Theorem C08_dns_list_skipping_heads_refuted :
+  forall item, (forall s r, item s = Some r -> (length r < length s)%nat) ->
+  forall fuel, dns_list item true fuel [true] = Err EFuel.
+Proof. exact dns_list_truncated_after_next_refuted. Qed.
+
 (** Non-vacuity: a schema with a vector of structs satisfies [sok], decoding a
     valid encoding succeeds and consumes it. *)
 Example C08_sok_satisfiable :
